@@ -415,7 +415,7 @@ template<class T, glm::qualifier Q> void family(Rng& g, int scale_down) {
     // rotate_vector, rotate_normalized_axis
     for (int rep = 0; rep < reps; ++rep) for (int a = 0; a < NPY; ++a) for (int x = rep % 2; x < NAX; x += 2) {
         if ((n++ % (sd * thin)) != 0) continue;
-        Ang an = { PY[a][0], PY[a][1], PY[a][2], (a + x + rep) % 5 == 0 ? turns[(a + x + rep) % nturns] : 0 };
+        Ang an = { PY[a][0], PY[a][1], PY[a][2], (a + x + rep) % 5 == 0 ? turns[((a + x) / 5 + rep + 1) % nturns] : 0 };
         V3 v = VS[size_t(a * 3 + x + rep * 13) % VS.size()];
         ev_rotvec<T, Q>(V4(v.x, v.y, v.z, T(1 + (a % 3))), an, AXES[(x + a) % NAX]);
         ev_rna<T, Q>(B4[size_t(a + x) % B4.size()], an, AXES[(x + a) % NAX], QTS[(a + x) % NQT]);
@@ -426,7 +426,7 @@ template<class T, glm::qualifier Q> void family(Rng& g, int scale_down) {
         long long cx = (long long)a.y * b.z - (long long)a.z * b.y, cy = (long long)a.z * b.x - (long long)a.x * b.z, cz = (long long)a.x * b.y - (long long)a.y * b.x;
         long long dt = (long long)a.x * b.x + (long long)a.y * b.y + (long long)a.z * b.z;
         if (cx == 0 && cy == 0 && cz == 0 && dt < 0) continue;
-        if ((n++ % (sd * (g_thorough ? 1 : 3))) != 0 && i != j) continue;
+        if ((n++ % (sd * (g_thorough ? 1 : 5))) != 0 && i != j) continue;
         ev_orientation<T, Q>(a, b);
     }
     // lookAt
@@ -435,7 +435,7 @@ template<class T, glm::qualifier Q> void family(Rng& g, int scale_down) {
         int cnt = 0;
         for (int e = 0; e < 27; ++e) for (int c = 0; c < 27; ++c) for (int u = 0; u < 7; ++u) {
             if (e == c) continue;
-            if (((cnt++) % ((g_thorough ? 2 : 17) * sd)) != 0) continue;
+            if (((cnt++) % ((g_thorough ? 2 : 23) * sd)) != 0) continue;
             const int bx[3] = { -1, 0, 2 };
             V3 eye(T(bx[e % 3]), T(bx[(e / 3) % 3]), T(bx[(e / 9) % 3])), cen(T(bx[c % 3] * 2), T(bx[(c / 3) % 3] * 2 + 1), T(bx[(c / 9) % 3] - 3));
             V3 up(T(UPS[u][0]), T(UPS[u][1]), T(UPS[u][2]));
@@ -467,7 +467,7 @@ template<class T> void decompose_family(Rng& g) {
     const int TR[][4] = { {0, 0, 0, 1}, {1, 2, 3, 1}, {-5, 7, 1, 2}, {10, -20, 30, 1} };
     const int PR[][5] = { {1, -2, 1, 8, 8}, {1, 1, 1, 16, 16}, {-1, 0, 2, 4, 4}, {0, 0, 1, 32, 32} };       // (x, y, z, w)/pd with w = pd
     int n = 0;
-    int stride = g_thorough ? 2 : 29;
+    int stride = g_thorough ? 2 : 37;
     for (int q = 0; q < NQT; ++q) for (int sg = 0; sg < 8; ++sg) for (int sc = 0; sc < 6; ++sc) for (int sk = 0; sk < 6; ++sk) for (int md = 0; md < 2; ++md) {
         if ((n++ % stride) != 0) continue;
         Pieces c;
